@@ -11,7 +11,7 @@ PID = "C11"
 
 
 def make_cases(tier, seed):
-    n = 12000 if tier == "quick" else 60000
+    n = 40000 if tier == "quick" else 100000
     return gen_set.directed() + gen_set.gen_c11(seed, n)
 
 
